@@ -27,3 +27,187 @@ def prepare(ex, st, opts):
 
 def post_obligations(ex, opts):
     return []
+
+
+# ---------------------------------------------------------------------------------------------
+# workflow stubs (detect package): scripted round results, instrumented byte source, io.ReadFull by contract
+
+DP = 'github.com/Trisia/randomness/detect'
+
+
+class StreamBlock(object):
+    """content of a byte buffer: bytes [start, start+n) of the harness stream (n == len of the buffer)"""
+    __slots__ = ('start', 'n', 'fresh')
+
+    def __init__(self, start, n, fresh=True):
+        self.start = start
+        self.n = n
+        self.fresh = fresh
+
+
+class Script(object):
+    pass
+
+
+def _pc_guard(st):
+    g = True
+    for x in st.pc:
+        g = b_and(g, x)
+    return g
+
+
+def wf_script_rounds(ex, fr, st, args, ins):
+    s, items = args
+    sc = Script()
+    sc.s, sc.items = s, items
+    base = len(ex.inputs)
+    sc.passv = [[z3.Bool('pass_%d_%d' % (k, j)) for j in range(items)] for k in range(s)]
+    sc.qv = [[z3.Real('q_%d_%d' % (k, j)) for j in range(items)] for k in range(s)]
+    for k in range(s):
+        for j in range(items):
+            ex.inputs.append(('bool', sc.passv[k][j]))
+    cons = []
+    for k in range(s):
+        for j in range(items):
+            ex.inputs.append(('float', sc.qv[k][j]))
+            cons += [sc.qv[k][j] >= 0, sc.qv[k][j] <= 1]
+    st.pc = st.pc + tuple(cons)
+    sc.calls = []      # (guard, name, buflen, bufpos)
+    ex.script = sc
+    return None
+
+
+def wf_pass(ex, fr, st, args, ins):
+    return ex.script.passv[args[0]][args[1]]
+
+
+def wf_q(ex, fr, st, args, ins):
+    return FReal(ex.script.qv[args[0]][args[1]])
+
+
+def wf_round_calls(ex, fr, st, args, ins):
+    r = GSum(64, 0, {})
+    n = 0
+    for (g, name, bl, bp) in ex.script.calls:
+        if g is True:
+            n += 1
+        else:
+            r = gs_from(gs_add(r, gs_indicator(g, 64, 1)), 64)
+    return gs_add(r, GSum(64, n, {}))
+
+
+def _call_field(idx):
+    def h(ex, fr, st, args, ins):
+        k = args[0]
+        if k >= len(ex.script.calls):
+            return '' if idx == 1 else -1
+        return ex.script.calls[k][idx]
+    return h
+
+
+def _mk_round(name, n):
+    def h(ex, fr, st, args, ins):
+        data = args[0]
+        sc = ex.script
+        k = len(sc.calls)
+        blk = st.heap.get(data.obj) if data.obj is not None else None
+        if isinstance(blk, StreamBlock) and data.off == 0:
+            pos = blk.start
+        else:
+            pos = -1
+        sc.calls.append((_pc_guard(st), name, data.len, pos))
+        cells = []
+        for j in range(n):
+            if k < sc.s and j < sc.items:
+                val = ['', 0.0, FReal(sc.qv[k][j]), 0.0, 0.0, sc.passv[k][j]]
+            else:
+                val = ['', 0.0, 0.0, 0.0, 0.0, False]
+            oid = ex.new_obj(st, val)
+            ex.alloc_epoch[oid] = ex.nobj
+            cells.append(Ptr(oid, ()))
+        oid = ex.new_obj(st, cells)
+        ex.alloc_epoch[oid] = ex.nobj
+        return Slice(oid, (), 0, n, n)
+    return h
+
+
+def wf_readfull(ex, fr, st, args, ins):
+    """io.ReadFull by contract on a vStream without failure/chunking: fills the whole buffer with the next len(buf)
+    stream bytes and returns (len(buf), nil)"""
+    r, buf = args
+    if not (isinstance(r, Iface) and r.typ.endswith('.vStream')):
+        raise Unsupported('io.ReadFull on %r' % (r,))
+    sp = r.val
+    fields = ex.load(st, sp, r.typ[1:])
+    pos, reads, failAt, failErr, maxChunk = fields
+    n = buf.len
+    if not (isinstance(failAt, int) and failAt < 0):
+        h = ex.intr.get('#readfull_faulty')
+        if h is None:
+            raise Unsupported('ReadFull on a failing stream')
+        return h(ex, fr, st, args, ins)
+    if not (buf.off == 0 and isinstance(n, int)):
+        raise Unsupported('ReadFull into a sub-slice')
+    st.heap[buf.obj] = StreamBlock(pos, n)
+    ex.store(st, Ptr(sp.obj, sp.path + (0,)), int_binop('+', pos, n, 64, True))
+    ex.store(st, Ptr(sp.obj, sp.path + (1,)), int_binop('+', reads, 1, 64, True))
+    ex.log.append((st.pc, 'io.ReadFull', (pos, n)))
+    return (n, None)
+
+
+def wf_err_item(ex, fr, st, args, ins):
+    err = args[0]
+    names = ex.item_names(st)
+
+    def one(e):
+        if e is None:
+            return -1
+        if isinstance(e, SymChoice):
+            res = None
+            for g, a in reversed(e.alts):
+                v = one(a)
+                res = v if res is None else int_ite(g, v, res, 64)
+            return res
+        if isinstance(e, Iface):
+            v = e.val
+            if isinstance(v, SymChoice):
+                idx = one(SymChoice([(g, Iface(e.typ, a)) for g, a in v.alts]))
+            elif isinstance(v, Opaque) and v.kind == 'error' and v.data[0] == 'fmt.Errorf' and v.data[2] and isinstance(v.data[2][0], str):
+                idx = names.index(v.data[2][0]) if v.data[2][0] in names else -1
+            else:
+                idx = -1
+            if e.isnil is False:
+                return idx
+            return int_ite(e.isnil, -1, idx, 64)
+        return -1
+    return one(err)
+
+
+@stubset('workflow')
+def _workflow():
+    return {
+        '#vScriptRounds': wf_script_rounds, '#vPass': wf_pass, '#vQ': wf_q, '#vRoundCalls': wf_round_calls,
+        '#vRoundName': _call_field(1), '#vRoundBufLen': _call_field(2), '#vRoundBufPos': _call_field(3),
+        '#vErrItem': wf_err_item,
+        DP + '.Round15': _mk_round('Round15', 15), DP + '.Round12': _mk_round('Round12', 12),
+        'io.ReadFull': wf_readfull,
+    }
+
+
+def tq_summary(ex, fr, st, args, ins):
+    """detect.ThresholdQ summarised (its definition is C12): the result is a function of the list of Q-values"""
+    cells = ex.slice_cells(st, args[0])
+    key = tuple((c.t.get_id() if isinstance(c, FReal) else ('c', c)) for c in cells)
+    tab = ex.__dict__.setdefault('tq_table', {})
+    v = tab.get(key)
+    if v is None:
+        v = z3.Real('tq!%d' % len(tab))
+        tab[key] = v
+        ex.__dict__.setdefault('tq_keep', []).append(cells)
+    ex.log.append((st.pc, 'ThresholdQ', key))
+    return FReal(v)
+
+
+@stubset('tq_summary')
+def _tq():
+    return {DP + '.ThresholdQ': tq_summary, DP + '.specThresholdQ': tq_summary}
